@@ -1013,3 +1013,63 @@ fn c06_cell_cl_space7_te_chunkedx() {
 }
 
 // ---- END generated C06 cells
+
+// ---------------------------------------------------------------- canaries (must FAIL)
+
+//@ props: C04 C19
+//@ tier: canary
+//@ unwind: 4
+//@ timeout: 600
+//@ encodes: BodyWriter::write (Sized arm) - canary: the oracle is deliberately off by one, the harness must be reported FAILED
+//@ vars: as c04_writer_sized_step
+//@ bounds: as c04_writer_sized_step
+//@ outside: -
+//@ clause: (wrong on purpose) consumed == min(in, out, left) + 1
+#[kani::proof]
+fn c04_canary_wrong_oracle() {
+    let left: u64 = kani::any();
+    let inp: [u8; 8] = kani::any();
+    let il = any_le(8);
+    let ol = any_le(8);
+    kani::assume(il as u64 <= left);
+    let mut bw = mk_writer_sized(left, false);
+    let mut out = [0u8; 8];
+    let n = {
+        let mut w = Writer::new(&mut out[..ol]);
+        let n = bw.write(&inp[..il], &mut w);
+        core::mem::forget(w);
+        n
+    };
+    let left_us = if left > usize::MAX as u64 { usize::MAX } else { left as usize };
+    assert!(n == il.min(ol).min(left_us) + 1, "C04/canary-wrong-oracle");
+}
+
+//@ props: C03 C18
+//@ tier: canary
+//@ unwind: 6
+//@ unwindset: write_all=3
+//@ timeout: 600
+//@ encodes: BodyWriter::write (Chunked arm) with the write_chunk contract - canary: claims that one more byte than the advertised maximum always fits
+//@ vars: as c03_composite_chunked_write
+//@ bounds: as c03_composite_chunked_write
+//@ outside: -
+//@ clause: (wrong on purpose) calculate_max_input(n) + 1 bytes are consumed completely
+#[kani::proof]
+#[kani::stub(write_chunk, p_write_chunk)]
+#[kani::stub(<Writer<'_> as std::io::Write>::write, p_writer_write_counts)]
+fn c18_canary_one_more_byte_fits() {
+    let ol = any_le(NCOMP - 1);
+    let il = calculate_max_input(ol) + 1;
+    kani::assume(il <= NCOMP);
+    let input = [0u8; NCOMP];
+    let mut out = [0u8; NCOMP];
+    let mut bw = mk_writer_chunked(false);
+    ghost_reset();
+    let n = {
+        let mut w = Writer::new(&mut out[..ol]);
+        let n = bw.write(&input[..il], &mut w);
+        core::mem::forget(w);
+        n
+    };
+    assert!(n == il, "C18/canary-one-more-byte-fits");
+}
